@@ -373,9 +373,9 @@ def step (st : State) (j : Json) : P Json := do
   | "spec_path_ok" =>
     -- do the path configurations follow the conventions C05 / C06 are proved under?  One pair
     -- (pathConfOk, pathsExclusive) per configured path configuration, in configuration order
-    return result (jlist (fun (n, a, b) => Json.arr #[jstr n, Json.bool a, Json.bool b]))
+    return result (jlist (fun (n, a, b, t) => Json.arr #[jstr n, Json.bool a, Json.bool b, Json.bool t]))
       (.ok (c.cfg.paths.map (fun pc => (pc.name, Spec.pathConfOk e pc,
-        Spec.pathsExclusive e c.cfg.sid.searchSymbols pc))))
+        Spec.pathsExclusive e c.cfg.sid.searchSymbols pc, Spec.pathTplsOk e pc))))
   | "extrapolate_templates" =>
     return result jdict (.ok (ConfUtil.extrapolateTemplates (← fieldStr j "sep")
       (← dict (← field j "templates")) (← listOf str (← field j "to_extrapolate"))))
